@@ -7,7 +7,7 @@ tie        harness/phase/sel.c runs the REAL lsx_fir_to_phase (index-valued mark
            ld --wrap: every output tap names the index it was read from), the REAL dft_stage_init and lsx_design_lpf on
            generated inputs; the Lean driver (Phase/Main.lean) runs the model on the same lines; integers diffed.
            Every dft stage of a sweep of exported plans is evaluated against the clauses the theorems speak about
-           (latency split, linear => centred and block-aligned, FDomainOK) by the Lean definitions themselves.
+           (latency split, padded dft_length, linear => centred, FDomainOK for every phase) by the Lean definitions themselves.
 falsifier  measurement on the real library (checks/phaselib.py): prototype filters from impulses at every input phase of the
            implementation period, |H_p| against |H_50| over pass- and stop-band, end-to-end mirror law, linear-phase symmetry
            about the input instant, sine-fit amplitude / residual, output length.  Never counted as proof.
@@ -201,7 +201,7 @@ def plan_sweep(ctx):
                 lin, s["L"], s["dftLen"], s["numTaps"], s["postPeak"], s["preload"], int(s["clk"]), s["blockLen"], s["isz"]))
             owner.append((c, info, s, lin))
     ans = run_model(ops)
-    f1 = 0
+    misaligned = 0
     for op, a, (c, info, s, lin) in zip(ops, ans, owner):
         _, f, _ = fields(a)
         ctx.count("dft_stages_checked")
@@ -210,17 +210,17 @@ def plan_sweep(ctx):
         if f.get("latency") != "1" or f.get("shape") != "1" or f.get("pad") != "1":
             viol(ctx, "dft stage violates the latency / shape / padding clauses of dft_stage_init (post_peak = L*preload + at, at < L, block_len, "
                           "input_size, dft_length >= 32 L for power-of-two L): %s -> %s (%s)" % (op, a, P.label(c)), rep)
-        elif lin and (f.get("centred") != "1" or f.get("fdok") != "1"):
-            viol(ctx, "LINEAR-phase dft stage is not centred / not block-aligned (theorems linear_design_centred, "
-                          "linear_block_aligned say it always is): %s -> %s (%s)" % (op, a, P.label(c)), rep)
+        elif lin and f.get("centred") != "1":
+            viol(ctx, "LINEAR-phase dft stage is not centred on the input grid (theorems linear_design_centred, linear_block_aligned "
+                          "say it always is): %s -> %s (%s)" % (op, a, P.label(c)), rep)
         elif f.get("fdok") != "1":
-            f1 += 1
-            if s["L"] < 8:
-                viol(ctx, "block-misaligned F-domain stage with L < 8 (theorem small_L_block_aligned says impossible): %s (%s)" % (op, P.label(c)), rep)
+            misaligned += 1
+            viol(ctx, "dft stage with a power-of-two L that does not divide block_len (theorem block_aligned_all_phases says dft_stage_init "
+                          "never leaves one, for any phase response; this was finding F1 before its repair): %s -> %s (%s)" % (op, a, P.label(c)), rep)
     ctx.count("evaluations", len(res))
     ctx.count("traces_validated_against_impl", len(ops))
     ctx.count("distinct_nontrivial", len(set(ops)))
-    ctx.cov["f1_plans_in_sweep"] = f1
+    ctx.cov["misaligned_plans_in_sweep"] = misaligned
     ctx.cov["plans_swept"] = len(res)
     if len(ans) != len(ops):
         viol(ctx, "Lean driver answered %d lines for %d plan stages" % (len(ans), len(ops)), {}, no_input=True)
@@ -474,29 +474,22 @@ def falsifier(ctx, jobs):
     return res
 
 
-def pinned_f1(ctx):
-    """the witness of theorem f1_nonlinear_block_misaligned on the real code: HQ, 1 -> 128, phase_response = 0"""
-    known = {f["id"]: f for f in common.known_active(PID)}
+def former_f1_witness(ctx):
+    """HQ, 1 -> 128, phase_response = 0: the configuration of finding F1 (repaired in /repo by trailing zeros after the phase
+    transform).  Its plan must be the one theorem f1_historical_misaligned computes with the code as it is, and it goes through
+    the same numeric oracles as every other configuration (falsifier job below)."""
     c = P.mkcfg(1.0, 128.0, 4, 0, 1, phase=0)
     info, _ = P.run(c)
-    hit = "F1" in cr.classify_known(P.plan_strs(info), c)
     post = [s for s in info["stages"] if s["kind"] == "dft"][-1]
-    same = (post["L"], post["numTaps"], post["postPeak"], post["dftLen"], post["blockLen"]) == (32, 381, 289, 2048, 1668)
-    ctx.cov["f1_witness_plan_matches_theorem"] = same
-    s0 = sine_job(dict(c, phase=50), 0.47, float(info["q"]["pb"]))
-    s1 = sine_job(c, 0.47, float(info["q"]["pb"]))
-    db = 20 * math.log10(max(s1["amp"], 1e-300) / max(s0["amp"], 1e-300))
-    ctx.cov["f1_replay"] = {"plan_clause_violated": hit, "gain_vs_linear_db": round(db, 3), "residual_rms": s1["rms"], "linear_residual_rms": s0["rms"]}
-    if hit and (abs(db) > PB_TOL_DB or s1["rms"] > 1e-3):
-        if "F1" in known:
-            ctx.known("F1", "%s [replayed: HQ 1->128 phase_response=0, post stage L=%d block_len=%d: tone gain %+.2f dB, fit residual %.1f dB re. the tone]" % (
-                known["F1"]["what"], post["L"], post["blockLen"], db, 20 * math.log10(max(s1["rms"], 1e-300))))
-        else:
-            viol(ctx, "C14 fails on the real code (finding F1 is not listed as known): HQ 1->128 phase 0: gain %+.2f dB, residual %.3g" % (db, s1["rms"]),
-                          {"cfg": c, "plan": P.plan_strs(info)})
-    elif not hit:
-        ctx.notes.append("F1 witness: the planner no longer exports a misaligned stage for HQ 1->128 phase 0 (finding fixed?); "
-                         "theorem f1_nonlinear_block_misaligned then speaks about a model the correspondence will have flagged")
+    got = (post["L"], post["numTaps"], post["postPeak"], post["dftLen"], post["blockLen"])
+    ctx.cov["former_f1_witness"] = {"post_stage": dict(zip(("L", "numTaps", "postPeak", "dftLen", "blockLen"), got)),
+                                    "plan_matches_theorem": got == (32, 385, 293, 2048, 1664),
+                                    "block_aligned": post["blockLen"] % post["L"] == 0}
+    if post["blockLen"] % post["L"]:
+        viol(ctx, "the former F1 witness (HQ 1->128 phase_response=0) has a block-misaligned post stage again: L=%d block_len=%d" % (post["L"], post["blockLen"]),
+             {"cfg": c, "plan": P.plan_strs(info)})
+    return {"cfg": P.mkcfg(1.0, 128.0, 4, 0, 1), "phases": [50, 0, 100, 25, 75], "tones": [0.11, 0.47, 0.93],
+            "proto_cap": 4 if ctx.quick else 40}
 
 
 def run(ctx):
@@ -512,15 +505,14 @@ def run(ctx):
     if model_ok:
         correspondence(ctx)
         plan_sweep(ctx)
-    pinned_f1(ctx)
-    jobs = make_jobs(ctx)
+    jobs = [former_f1_witness(ctx)] + make_jobs(ctx)
     falsifier(ctx, jobs)
     ctx.cov["rule"] = ("(1) generated (filter, phase n/d, peak) cases through the real lsx_fir_to_phase with index-valued markers behind its last FFT, "
                        "generated (L, M, Fn, phase, band edges, attenuation) through the real dft_stage_init: len / post_len / source index of "
                        "every tap / num_taps as designed / padded dft_length / post_peak / preload / at / block_len / input_size / FDomainOK equal to the Lean model; "
                        "(2) every dft stage of a sweep of exported plans satisfies post_peak = L*preload + at, at < L, dft_length >= 32 L for power-of-two L, linear => centred, "
-                       "at = 0 and L | block_len (Lean definitions evaluated by the driver); non-linear stages with L !| block_len are counted (F1), "
-                       "none may have L < 8; (3) measurement: |H_p| vs |H_50| <= %.2f dB over the pass-band (0.35 dB for the medium roll-off recipes, whose plan depends on the phase), stop-band peak <= max(configured "
+                       "at = 0, and EVERY phase L | block_len for power-of-two L (Lean definitions evaluated by the driver; a misaligned stage is a violation), "
+                       "(3) measurement (the former F1 witness HQ 1->128 phase 0 included): |H_p| vs |H_50| <= %.2f dB over the pass-band (0.35 dB for the medium roll-off recipes, whose plan depends on the phase), stop-band peak <= max(configured "
                        "precision + 1 dB, linear + 3 dB), equal output length, p vs 100-p mirror images about an axis within one input period "
                        "(16 eps of the engine + 2^(1-bits)), linear phase symmetric about the input instant, tone gain / fit residual against linear phase" % PB_TOL_DB)
     ctx.assume("the cepstral transform (FFT, atan2, log, exp) is opaque to the model: it enters the theorems as an arbitrary array `work`, "
